@@ -94,9 +94,9 @@ def decimal(value: _decimal.Decimal) -> bytes:
     if not isinstance(value, _decimal.Decimal):
         raise TypeError('decimal.Decimal required, received {}'.format(
             type(value)))
-    tmp = str(value)
-    if '.' in tmp:
-        decimals = len(tmp.split('.')[-1])
+    exponent = value.as_tuple().exponent
+    if isinstance(exponent, int) and exponent < 0:
+        decimals = -exponent
         value = value.normalize()
         raw = int(value * (_decimal.Decimal(10)**decimals))
         return struct.pack('>Bi', decimals, raw)
